@@ -602,18 +602,42 @@ def check_expgram(ctx, q, A, B, dtype, tag):
             raise core.HarnessError("driver inconsistent: pl_expgram vs pl_num")
 
 
-def exp_prior(kind_prior, q, d, base, param):
-    """dense exponential priors through the public API"""
+def exp_prior(kind_prior, q, d, base, param, variant="plain", diffuse=0):
+    """dense exponential priors through the public API.  `variant`: "plain" (is_exact=True) or "diffuse" (the `*_diffuse`
+    constructor with explicit standard deviations); `diffuse` trailing coefficients are appended by the constructor
+    (`diffuse_derivatives`), so that the prior always has q + 1 coefficients; kind "general": `prior_exponential` with a
+    user-supplied linear autonomous ODE of order q + 1 (`param` = its d x (q+1)d Jacobian)."""
     import jax.numpy as jnp
     from probdiffeq import probdiffeq as pdq
 
     ssm = pdq.state_space_model_dense()
-    tcoeffs = [jnp.zeros((d,)) for _ in range(q + 1)]
+    tcoeffs = [jnp.zeros((d,)) for _ in range(q + 1 - diffuse)]
+    kw = {"output_scale": jnp.asarray(base), "diffuse_derivatives": diffuse}
+    stds = [jnp.zeros((d,)) for _ in tcoeffs]
     if kind_prior == "ou":
         Lm = jnp.asarray(param)
-        return ssm.prior_ornstein_uhlenbeck_integrated(lambda x: Lm @ x, tcoeffs, output_scale=jnp.asarray(base))
+        if variant == "diffuse":
+            return ssm.prior_ornstein_uhlenbeck_integrated_diffuse(lambda x: Lm @ x, tcoeffs, stds, **kw)
+        return ssm.prior_ornstein_uhlenbeck_integrated(lambda x: Lm @ x, tcoeffs, **kw)
     if kind_prior == "matern":
-        return ssm.prior_matern(float(param), tcoeffs, output_scale=jnp.asarray(base))
+        if variant == "diffuse":
+            return ssm.prior_matern_diffuse(float(param), tcoeffs, stds, **kw)
+        return ssm.prior_matern(float(param), tcoeffs, **kw)
+    if kind_prior == "general":
+        M = jnp.asarray(param)  # d x (q+1) d
+
+        def f(*us):
+            return sum(M[:, i * d : (i + 1) * d] @ u for i, u in enumerate(us))
+
+        if q == 0:
+            ode = pdq.ode_autonomous(lambda u, /: f(u))
+        elif q == 1:
+            ode = pdq.ode_autonomous_order_two(lambda u, du, /: f(u, du))
+        else:
+            ode = pdq.ode_autonomous_order_arbitrary(f, num_tcoeffs_in_args=q + 1)
+        if variant == "diffuse":
+            return ssm.prior_exponential_diffuse(ode, tcoeffs, stds, **kw)
+        return ssm.prior_exponential(ode, tcoeffs, **kw)
     raise ValueError(kind_prior)
 
 
@@ -623,14 +647,25 @@ def check_exp_prior(ctx, kind_prior, q, d, h, s, tag):
     rng = ctx.rng
     base = np.array([float(2.0 ** rng.integers(-2, 3)) * float(rng.choice([1.0, 1.5])) for _ in range(d)])
     N = (q + 1) * d
+    variant = gen.pick(rng, ["plain", "diffuse"], [2, 1])
+    diffuse = int(rng.integers(1, q + 1)) if q >= 1 and rng.random() < 0.5 else 0
+    tag = dict(tag, constructor=variant, diffuse_derivatives=diffuse)
+    ctx.count(f"exp.constructor={variant}")
+    ctx.count(f"exp.diffuse_derivatives={'0' if diffuse == 0 else '>0'}")
     if kind_prior == "ou":
         Lm = scale_to_norm1(rand_matrix(rng, d, gen.pick(rng, ["gen", "stable", "sym"])), loguniform(rng, 0.05, 20.0)) if d > 1 else np.array([[-loguniform(rng, 0.05, 20.0) * float(rng.choice([1.0, -0.2]))]])
-        prior = exp_prior("ou", q, d, base, Lm)
+        prior = exp_prior("ou", q, d, base, Lm, variant, diffuse)
         drift_model = fl(Cut(ctx.drv.call("exp_drift_ou", q, d, Lm)).take(N, N))
         param = Lm.tolist()
+    elif kind_prior == "general":
+        # linear autonomous ODE u^(q+1) = sum_i M_i u^(i) with dyadic coefficients, handed in through the ODE constructors
+        M = gen.dyadic(rng, (d, N), bits=3) * loguniform(rng, 0.05, 4.0)
+        prior = exp_prior("general", q, d, base, M, variant, diffuse)
+        drift_model = fl(Cut(ctx.drv.call("exp_drift_general", q, d, M)).take(N, N))
+        param = M.tolist()
     else:
         ell = loguniform(rng, 0.05, 20.0)
-        prior = exp_prior("matern", q, d, base, ell)
+        prior = exp_prior("matern", q, d, base, ell, variant, diffuse)
         D = q + 1
         z = float(jnp.sqrt(2 * (D - 0.5)) / ell)  # the square root stays outside the model
         drift_model = fl(Cut(ctx.drv.call("exp_drift_matern", q, d, F(z))).take(N, N))
@@ -707,9 +742,9 @@ def run_reference(ctx):
                 ctx.count(f"expgram.{np.dtype(dtype).name}.order{q}")
                 ctx.count("expgram.norm<1" if nrm < 1 else ("expgram.norm<10" if nrm < 10 else "expgram.norm>=10"))
                 ctx.case({"part": "exp_gram", "order": q, "dtype": np.dtype(dtype).name, "n": n, "m": m, "kind": kind, "norm": nrm})
-    for it in range(ctx.n(6, 100)):
-        kind_prior = ["ou", "matern"][it % 2]
-        if it < 4:
+    for it in range(ctx.n(9, 120)):
+        kind_prior = ["ou", "matern", "general"][it % 3]
+        if it < 3:
             q, d = 0, 1
         else:
             q = int(rng.integers(0, 4))
